@@ -78,6 +78,7 @@ struct BlockResult {
     d: String,
     dn: Option<String>,
     dr: Option<String>,
+    df: Option<String>,
     panics: u64,
     skipped: u64,
     nonfinite: u64,
@@ -87,12 +88,22 @@ fn digest_block(sp: &Spaces, op: &OpDef, b: u64, mon: &mut Mon) -> BlockResult {
     let mut hd = blake3::Hasher::new();
     let mut hn = blake3::Hasher::new();
     let mut hr = blake3::Hasher::new();
+    let mut hf = blake3::Hasher::new();
     let (mut panics, mut skipped, mut nonfinite) = (0u64, 0u64, 0u64);
     let mut tmp: Vec<u32> = Vec::new();
-    run_block(sp, op, b, mon, |status, class, words, _start| {
+    run_block(sp, op, b, mon, |status, class, words, start| {
         for s in status {
             panics += u64::from(*s == ST_PANIC);
             skipped += u64::from(*s == ST_SKIP);
+        }
+        if op.fdig {
+            for (k, s) in status.iter().enumerate() {
+                let w = &words[k * op.wout..(k + 1) * op.wout];
+                if *s == ST_OK && w.iter().all(|x| (x >> 23) & 0xff != 0xff) {
+                    hf.update(&(start + k as u64).to_le_bytes());
+                    hf.update(as_bytes(w));
+                }
+            }
         }
         if !op.split {
             hd.update(status);
@@ -123,6 +134,7 @@ fn digest_block(sp: &Spaces, op: &OpDef, b: u64, mon: &mut Mon) -> BlockResult {
         d: hex(hd.finalize().as_bytes()),
         dn: op.split.then(|| hex(hn.finalize().as_bytes())),
         dr: op.split.then(|| hex(hr.finalize().as_bytes())),
+        df: op.fdig.then(|| hex(hf.finalize().as_bytes())),
         panics,
         skipped,
         nonfinite,
@@ -161,6 +173,8 @@ fn emit(args: &Args) -> i32 {
     };
     let scopes: Vec<Scope> = args.extra.get("scopes").map_or("spot", String::as_str).split(',').filter_map(scope_of).collect();
     let only_ops: Option<Vec<&str>> = args.extra.get("ops").map(|s| s.split(',').collect());
+    // `--stride K`: of the main (non-edge) unary blocks evaluate only b % K == 0 (used for the -O0 lanes)
+    let stride: u64 = args.extra.get("stride").and_then(|s| s.parse().ok()).unwrap_or(1).max(1);
     let t0 = std::time::Instant::now();
     let spaces: Vec<Spaces> = scopes.iter().map(|s| Spaces::new(*s, args.seed)).collect();
     let mut items: Vec<(usize, usize, u64)> = Vec::new();
@@ -169,7 +183,15 @@ fn emit(args: &Args) -> i32 {
             if only_ops.as_ref().is_some_and(|l| !l.contains(&op.name)) {
                 continue;
             }
+            let main_unary = match sp.scope {
+                Scope::Spot => 0,
+                Scope::Quick => 64,
+                Scope::Thorough => 4096,
+            };
             for b in 0..fam_blocks(sp, op.fam) {
+                if op.fam == ops::Family::Unary && b < main_unary && b % stride != 0 {
+                    continue;
+                }
                 items.push((si, oi, b));
             }
         }
@@ -225,6 +247,9 @@ fn emit(args: &Args) -> i32 {
                 m.insert("dr".into(), json!(dr));
                 m.insert("nonfinite".into(), json!(r.nonfinite));
             }
+            if let Some(df) = &r.df {
+                m.insert("df".into(), json!(df));
+            }
             m.insert("panics".into(), json!(r.panics));
             m.insert("skipped".into(), json!(r.skipped));
             Value::Object(m)
@@ -239,10 +264,11 @@ fn emit(args: &Args) -> i32 {
     let body = json!({
         "build": {"debug_assertions": cfg!(debug_assertions), "miri": cfg!(miri), "lanes": lanes()},
         "seed": args.seed,
+        "unary_block_stride": stride,
         "scopes": scopes.iter().map(|s| s.as_str()).collect::<Vec<_>>(),
         "input_set_digests": spaces.iter().map(|sp| json!({"scope": sp.scope.as_str(), "digest": input_set_digest(sp),
             "interesting_f32": sp.iset.len(), "interesting_f32_finite": sp.ifin.len(), "interesting_q32": sp.jset.len(), "edge_values": sp.edges.len()})).collect::<Vec<_>>(),
-        "ops": OPS.iter().map(|o| json!({"name": o.name, "family": format!("{:?}", o.fam), "words_out": o.wout, "words_in": fam_win(o.fam), "split": o.split, "what": o.what})).collect::<Vec<_>>(),
+        "ops": OPS.iter().map(|o| json!({"name": o.name, "family": format!("{:?}", o.fam), "words_out": o.wout, "words_in": fam_win(o.fam), "split": o.split, "fdig": o.fdig, "what": o.what})).collect::<Vec<_>>(),
         "blocks": blocks,
         "monitor_checked": checked,
         "monitor_hits": hits,
